@@ -19,7 +19,7 @@ PID = 'C15'
 BUDGET = {
     # tier: (no-cancel scenarios, cancel scenarios, line-mode scenarios)
     'quick': (450, 250, 150),
-    'thorough': (10000, 6000, 4000),
+    'thorough': (3500, 2000, 1500),
 }
 
 
